@@ -52,6 +52,9 @@ var c02Kinds = []linkKind{
 	{"cert-expired-chain-E", "", "", false},
 	{"cert-foreign-root-H", "", "", false},
 	{"cert-failing-constraint-I", "", "", false},
+	{"cert-repeating-one-of-two-required-values-J", "", "", false},
+	{"honest-cert-K(second-constraint)", "K", "cert", false},
+	{"tampered-copy-of-A-named-by-9-characters-of-A's-id", "", "", false},
 	{"garbage-bytes", "", "", false},
 	{"truncated-json", "", "", false},
 	// observed: the library accepts it (the link's name is never compared with the
@@ -95,7 +98,7 @@ func newC02Env(c *core.Ctx, dsse bool) (*c02Env, error) {
 	foreignRoot, _ := gen.NewCA(gen.CertSpec{CN: "foreign-root"}, nil)
 	foreign, _ := gen.NewCA(gen.CertSpec{CN: "foreign-intermediate"}, foreignRoot)
 	e.foreignInter = foreign
-	for i, n := range []string{"A", "B", "C", "D", "U", "F", "G", "E", "H", "I"} {
+	for i, n := range []string{"A", "B", "C", "D", "U", "F", "G", "E", "H", "I", "J", "K"} {
 		e.fn[n] = gen.Functionary{KeyPair: fast[i%len(fast)]}
 	}
 	issue := func(n string, ca *gen.CA, spec gen.CertSpec) {
@@ -108,6 +111,9 @@ func newC02Env(c *core.Ctx, dsse bool) (*c02Env, error) {
 	issue("E", e.root, gen.CertSpec{CN: "builder", Orgs: []string{"acme"}, NotBefore: time.Now().Add(-48 * time.Hour), NotAfter: time.Now().Add(-24 * time.Hour)})
 	issue("H", foreign, gen.CertSpec{CN: "builder", Orgs: []string{"acme"}})
 	issue("I", e.root, gen.CertSpec{CN: "intruder", Orgs: []string{"acme"}})
+	// the step's second constraint asks for the organizations acme AND acme-release
+	issue("J", e.root, gen.CertSpec{CN: "releaser", Orgs: []string{"acme", "acme"}})
+	issue("K", e.root, gen.CertSpec{CN: "releaser", Orgs: []string{"acme-release", "acme"}})
 
 	link := c02Link("s")
 	signed := func(f gen.Functionary) (intoto.Metadata, []byte) {
@@ -151,6 +157,14 @@ func newC02Env(c *core.Ctx, dsse bool) (*c02Env, error) {
 	for kind, f := range map[string]string{"signed-by-unauthorized-key-U": "U", "signed-by-key-of-earlier-step-F": "F", "signed-by-key-of-later-step-G": "G", "cert-expired-chain-E": "E", "cert-foreign-root-H": "H", "cert-failing-constraint-I": "I"} {
 		md, _ := gen.SignedMeta(other, dsse, e.fn[f].SigningKey())
 		put(kind, name(e.fn[f]), dumpBytes(c, md))
+	}
+	{
+		md, _ := gen.SignedMeta(other, dsse, e.fn["J"].SigningKey())
+		put("cert-repeating-one-of-two-required-values-J", name(e.fn["J"]), dumpBytes(c, md))
+		_, kBytes := signed(e.fn["K"])
+		put("honest-cert-K(second-constraint)", name(e.fn["K"]), kBytes)
+		// a file named by nine characters of A's key id holds the tampered copy of A's link
+		put("tampered-copy-of-A-named-by-9-characters-of-A's-id", "s."+e.fn["A"].Pub.KeyID[:9]+".link", e.files["tampered-after-signing-A"])
 	}
 	put("copy-of-A-under-another-name", "s.deadbeef.link", aBytes)
 	forged := func(src []byte, withCert string) []byte {
@@ -226,7 +240,9 @@ func (e *c02Env) layout(mode string, threshold int) intoto.Layout {
 	if mode != "keys" {
 		cc := gen.WildcardConstraint()
 		cc.CommonName = "builder"
-		cons = []intoto.CertificateConstraint{cc}
+		cc2 := gen.WildcardConstraint()
+		cc2.CommonName, cc2.Organizations = "releaser", []string{"acme", "acme-release"}
+		cons = []intoto.CertificateConstraint{cc, cc2}
 	}
 	s := gen.Step("s", threshold, pub, allow, allow)
 	s.CertificateConstraints = cons
@@ -648,7 +664,7 @@ func init() {
 	core.Register(&core.Property{
 		ID:    "C02",
 		Level: "exploration",
-		Rule: "layout with steps t (earlier), s (under test), u (later); step s with threshold 1..3 and authorization by {2 listed keys, 1 certificate constraint + layout root/intermediate CA, both}; link-file populations for s = all multisets of size<=2 (quick) / <=3 (thorough, + 2000 random ones of size 4-8) over a catalogue of 22 link kinds (honest key A/B, honest certificate C / D via intermediate, tampered, unsigned, unauthorized key, key of an earlier / a later step, copy under another name, copy with forged key-id entry without / with the honest certificate, relabelled copy (forged id with the honest signature value and certificate), junk signatures before/after, expired / foreign-root / constraint-failing certificate, garbage, truncated JSON, link of another step renamed) x 2 wrappers; the earlier step t also admits certificate functionary C (its verdict must not leak into s); every population of >=2 files is verified 8 times (map order), half of the verifications with the intermediate of a foreign chain passed as caller-supplied intermediate, half with a (non-matching) parameter dictionary, half through InTotoVerifyWithDirectory; the same populations against layouts that name no CA at all (no certificate counts); links that never count report other artifacts than the honest ones; VerifyLinkSignatureThesholds is also called directly and its map inspected; a sequence of two layouts that define one key id with different key material; finally single-step chains whose step name and link directory name contain characters of file-name patterns ([ ] * ? \\ { }), blanks and non-ASCII letters (12 step names x 7 directory names, with and without the honest link). Oracle: expected number of distinct counting functionaries known by construction. " +
+		Rule: "layout with steps t (earlier), s (under test), u (later); step s with threshold 1..3 and authorization by {2 listed keys, 1 certificate constraint + layout root/intermediate CA, both}; link-file populations for s = all multisets of size<=2 (quick) / <=3 (thorough, + 2000 random ones of size 4-8) over a catalogue of 25 link kinds (honest key A/B, honest certificate C / D via intermediate, tampered, unsigned, unauthorized key, key of an earlier / a later step, copy under another name, copy with forged key-id entry without / with the honest certificate, relabelled copy (forged id with the honest signature value and certificate), junk signatures before/after, expired / foreign-root / constraint-failing certificate, certificate repeating one of two required organizations, tampered copy filed under nine characters of the honest functionary's key id, garbage, truncated JSON, link of another step renamed) x 2 wrappers; the earlier step t also admits certificate functionary C (its verdict must not leak into s); every population of >=2 files is verified 8 times (map order), half of the verifications with the intermediate of a foreign chain passed as caller-supplied intermediate, half with a (non-matching) parameter dictionary, half through InTotoVerifyWithDirectory; the same populations against layouts that name no CA at all (no certificate counts); links that never count report other artifacts than the honest ones; VerifyLinkSignatureThesholds is also called directly and its map inspected; a sequence of two layouts that define one key id with different key material; finally single-step chains whose step name and link directory name contain characters of file-name patterns ([ ] * ? \\ { }), blanks and non-ASCII letters (12 step names x 7 directory names, with and without the honest link). Oracle: expected number of distinct counting functionaries known by construction. " +
 			"non-trivial = at least one file for the step; distinct = (kind multiset, threshold, authorization, wrapper)",
 		Assumptions: []string{"a junk signature entry that carries the honest signer's own key id before the honest entry is not judged", "a link that an authorized functionary signed for ANOTHER step, renamed to this step's file name, is not judged (observed: it is counted; the statement only speaks about who signed)", "all links of a case report identical artifacts (agreement is C05's business)"},
 		Workers:     func(string) int { return 16 },
